@@ -46,7 +46,8 @@ Acts(S) ==
                \cup {[a |-> "Leave", s |-> s, t |-> "me", unsub |-> FALSE] : s \in MeSessions \cap S.onMe}
                \cup {[a |-> "Leave", s |-> s, t |-> "g1", unsub |-> FALSE] : s \in GrpSessions \cap S.attG}
       disc == {[a |-> "Disconnect", s |-> s] : s \in DiscSessions \cap S.live}
-      conn == {[a |-> "Connect", s |-> s] : s \in Sessions \ S.live}
+      \* (a name is not re-used while its closed session is still recorded as a party of the current call - possible as built only)
+      conn == {[a |-> "Connect", s |-> s] : s \in (Sessions \ S.live) \ S.call.parties}
       setself == {[a |-> "SetSelf", s |-> s, t |-> "p12", mode |-> m[1], w |-> m[2]] :
                     s \in (IF S.call.active THEN {} ELSE S.att), m \in {<<"JRPA", FALSE>>, <<"JRWPA", TRUE>>}}
       pub == {[a |-> "Pub", s |-> s, t |-> "p12", c |-> "c0"] : s \in (IF LastId(S) < MaxSeq THEN PubSessions \cap S.live ELSE {})}
